@@ -256,21 +256,24 @@ Qed.
 
 (* ---- Destinations.send ------------------------------------------------------------- *)
 (* number of reports one send produces *)
-Definition n_reports (s : state) (m' : msg) : nat :=
-  if is_report m' then 0 else length (flat_map (failure_of m') (dests s)).
+(* (whether the message is a report is decided on the message as logged, the
+   destinations are called with the global fields merged in) *)
+Definition n_reports (s : state) (m : msg) : nat :=
+  if is_report m then 0 else length (flat_map (failure_of (fupdate m (globals s))) (dests s)).
 
 (* the failures one send reports: none for a report message, none before the first add *)
-Definition reported (s : state) (m' : msg) : list exn :=
-  if is_report m' then [] else if any_added s then flat_map (failure_of m') (dests s) else [].
+Definition reported (s : state) (m : msg) : list exn :=
+  if is_report m then []
+  else if any_added s then flat_map (failure_of (fupdate m (globals s))) (dests s) else [].
 
 Lemma send_emits_full c s m :
   exists rs, emits (fupdate m (globals s) :: rs) s (send c s m) /\
              Forall2 (is_report_of (globals s) (fupdate m (globals s)))
-                     (reported s (fupdate m (globals s))) rs.
+                     (reported s m) rs.
 Proof.
   unfold send, reported. cbv zeta. set (m' := fupdate m (globals s)).
   pose proof (deliver_emits s m') as [H1 He]. destruct (deliver s m') as [s1 errs].
-  cbn [fst snd] in *. destruct (is_report m').
+  cbn [fst snd] in *. destruct (is_report m).
   - exists []. split; [exact H1 | constructor].
   - destruct (reports_emits c m' errs s1) as (rs & Hrs & Prs).
     exists rs. split.
@@ -283,7 +286,7 @@ Proof. induction 1; cbn; congruence. Qed.
 
 Lemma send_emits c s m :
   exists rs, emits (fupdate m (globals s) :: rs) s (send c s m) /\
-             (any_added s = true -> length rs = n_reports s (fupdate m (globals s))) /\
+             (any_added s = true -> length rs = n_reports s m) /\
              (any_added s = false -> rs = []) /\
              (fget K_mtype (globals s) = None -> Forall rep_msg rs).
 Proof.
@@ -322,32 +325,46 @@ Qed.
 
 (* C08.2: one report per failing destination, all after the message itself *)
 Theorem C08_report_count c s m :
-  any_added s = true -> fget K_mtype (globals s) = None ->
-  is_report (fupdate m (globals s)) = false ->
+  any_added s = true -> is_report m = false ->
   exists reports,
     ext (fupdate m (globals s) :: reports) s (send c s m) /\
     length (fupdate m (globals s) :: reports) =
       1 + length (flat_map (failure_of (fupdate m (globals s))) (dests s)) /\
-    Forall (fun r => is_report r = true) reports.
+    (* the destinations can recognise them as reports unless a global field named
+       message_type overwrites their type *)
+    (fget K_mtype (globals s) = None -> Forall (fun r => is_report r = true) reports).
 Proof.
-  intros A G R. destruct (send_emits c s m) as (rs & H & Hl & _ & P).
+  intros A R. destruct (send_emits c s m) as (rs & H & Hl & _ & P).
   exists rs. split; [|split].
   - apply (emits_ext _ _ _ A H).
   - cbn [length]. rewrite (Hl A). unfold n_reports. now rewrite R.
-  - eapply Forall_impl; [|exact (P G)]. intros r. apply rep_msg_is_report.
+  - intros G. eapply Forall_impl; [|exact (P G)]. intros r. apply rep_msg_is_report.
 Qed.
 
 Example C08_report_count_ex :
   any_added ex_s3 = true /\ fget K_mtype (globals ex_s3) = None /\
-  is_report (fupdate ex_m0 (globals ex_s3)) = false /\
+  is_report ex_m0 = false /\
   length (flat_map (failure_of (fupdate ex_m0 (globals ex_s3))) (dests ex_s3)) = 2 /\
   map (@length msg) (map d_log (dests (send 0 ex_s3 ex_m0))) = [3; 3; 3].
 Proof. repeat split. Qed.
 
-(* the hypothesis on the global fields is needed: a global field named message_type
-   overwrites the type of the reports, which are then not recognisable as reports *)
-Example C08_report_count_global_mtype_refuted :
-  any_added ex_s3g = true /\ is_report (fupdate ex_m0 (globals ex_s3g)) = false /\
+(* a global field named message_type: still exactly one report per failure (2 failures,
+   3 messages) and none about the reports, although the permanently broken destination
+   fails on each of them too -- the recursion guard looks at the message as logged ... *)
+Example C08_report_count_global_mtype_ex :
+  any_added ex_s3g = true /\ fget K_mtype (globals ex_s3g) = Some (VAtom 21%positive) /\
+  is_report ex_m0 = false /\
+  length (flat_map (failure_of (fupdate ex_m0 (globals ex_s3g))) (dests ex_s3g)) = 2 /\
+  map (@length msg) (map d_log (dests (send 0 ex_s3g ex_m0))) = [3; 3; 3] /\
+  map d_calls (dests (send 0 ex_s3g ex_m0)) = [3; 3; 3] /\
+  map (map (fget K_mtype)) (map d_log (dests (send 0 ex_s3g ex_m0))) =
+    let l := [Some (VAtom 21%positive); Some (VAtom 21%positive); Some (VAtom 21%positive)] in [l; l; l].
+Proof. repeat split. Qed.
+
+(* ... but what the destinations are handed then no longer carries the report type: the
+   hypothesis of the last clause of C08_report_count is needed *)
+Example C08_reports_recognisable_global_mtype_refuted :
+  any_added ex_s3g = true /\ is_report ex_m0 = false /\
   ~ exists reports,
       ext (fupdate ex_m0 (globals ex_s3g) :: reports) ex_s3g (send 0 ex_s3g ex_m0) /\
       Forall (fun r => is_report r = true) reports.
@@ -360,7 +377,7 @@ Qed.
 (* ... one per failure, in the order of the failing destinations, each carrying the
    failing exception's class name, its safeunicode text and the rendering of the message *)
 Theorem C08_report_content c s m :
-  any_added s = true -> is_report (fupdate m (globals s)) = false ->
+  any_added s = true -> is_report m = false ->
   exists reports,
     ext (fupdate m (globals s) :: reports) s (send c s m) /\
     Forall2 (is_report_of (globals s) (fupdate m (globals s)))
@@ -382,9 +399,10 @@ Proof.
   split; reflexivity.
 Qed.
 
-(* a failure while delivering a report is not itself reported *)
+(* a failure while delivering a report is not itself reported, whatever the global
+   fields are *)
 Theorem C08_reports_not_reported c s m :
-  any_added s = true -> is_report (fupdate m (globals s)) = true ->
+  any_added s = true -> is_report m = true ->
   ext [fupdate m (globals s)] s (send c s m).
 Proof.
   intros A R. destruct (send_emits c s m) as (rs & H & Hl & _).
@@ -393,9 +411,13 @@ Proof.
 Qed.
 
 Example C08_reports_not_reported_ex :
-  any_added ex_s3 = true /\ is_report (fupdate ex_mrep (globals ex_s3)) = true /\
+  any_added ex_s3 = true /\ is_report ex_mrep = true /\
   length (flat_map (failure_of (fupdate ex_mrep (globals ex_s3))) (dests ex_s3)) = 2 /\
-  map d_log (dests (send 0 ex_s3 ex_mrep)) = [[ex_mrep]; [ex_mrep]; [ex_mrep]].
+  map d_log (dests (send 0 ex_s3 ex_mrep)) = [[ex_mrep]; [ex_mrep]; [ex_mrep]] /\
+  (* the same with the global message_type override: two destinations fail on the
+     report, nothing is reported *)
+  length (flat_map (failure_of (fupdate ex_mrep (globals ex_s3g))) (dests ex_s3g)) = 2 /\
+  map (@length msg) (map d_log (dests (send 0 ex_s3g ex_mrep))) = [1; 1; 1].
 Proof. repeat split. Qed.
 
 (* C08.3 / C07.7: every destination is called once per appended message, failing or
